@@ -276,6 +276,7 @@ type treeExec struct {
 	named    map[int]string
 	lastCall map[int]*flamego.Route
 	curHdr   map[int][]hdrC // call -> constraints in force
+	last     serveOut       // what the handler of the current request observed (out of band: lossless, works for HEAD)
 }
 
 type serveOut struct {
@@ -285,8 +286,11 @@ type serveOut struct {
 	chains    int
 	rbWith    string
 	rbWithout string
+	rbOK      bool // the URL could be rebuilt (the route has a name / the leaf is at hand)
 	status    int
 }
+
+var reFailMethod = regexp.MustCompile(`with method ([A-Z]+):`)
 
 var nineMethods = []string{"GET", "POST", "PUT", "DELETE", "PATCH", "OPTIONS", "HEAD", "CONNECT", "TRACE"}
 
@@ -310,7 +314,7 @@ func newTreeExec(via string, c *treeCase) *treeExec {
 		x.f.Use(func(c flamego.Context) { x.chains++ })
 		x.f.NotFound(func(w http.ResponseWriter) {
 			w.WriteHeader(404)
-			_, _ = w.Write([]byte(`{"reg":0}`))
+			_, _ = w.Write([]byte("not found"))
 		})
 	}
 	return x
@@ -343,7 +347,10 @@ func (x *treeExec) register(i int, e hEntry) (accepted bool, detail string) {
 		return true, ""
 	}
 	h := func(c flamego.Context) {
-		out := map[string]interface{}{"reg": reg, "params": c.Params()}
+		o := serveOut{reg: reg, params: map[string]string{}}
+		for k, v := range c.Params() {
+			o.params[k] = v
+		}
 		name := x.nameFor(reg)
 		if name != "" {
 			pairs := []string{}
@@ -351,18 +358,15 @@ func (x *treeExec) register(i int, e hEntry) (accepted bool, detail string) {
 				pairs = append(pairs, k, v)
 			}
 			func() {
-				defer func() {
-					if r := recover(); r != nil {
-						out["rb_panic"] = fmt.Sprint(r)
-					}
-				}()
-				out["rb_without"] = c.URLPath(name, pairs...)
-				out["rb_with"] = c.URLPath(name, append(pairs, "withOptional", "true")...)
+				defer func() { _ = recover() }()
+				o.rbWithout = c.URLPath(name, pairs...)
+				o.rbWith = c.URLPath(name, append(pairs, "withOptional", "true")...)
+				o.rbOK = true
 			}()
 		}
-		b, _ := json.Marshal(out)
+		x.last = o
 		c.ResponseWriter().WriteHeader(200)
-		_, _ = c.ResponseWriter().Write(b)
+		_, _ = c.ResponseWriter().Write([]byte("reg " + itoa(reg)))
 	}
 	r := x.f.Route(e.M, text, []flamego.Handler{h})
 	x.routes[reg] = r
@@ -376,6 +380,55 @@ func (x *treeExec) register(i int, e hEntry) (accepted bool, detail string) {
 }
 
 func (x *treeExec) nameFor(reg int) string { return x.named[reg] }
+
+// registerMulti registers one route for several methods through a single Routes() call.
+func (x *treeExec) registerMulti(i int, es []hEntry) (accepted bool, detail string) {
+	defer func() {
+		if r := recover(); r != nil {
+			accepted = false
+			detail = fmt.Sprint(r)
+		}
+	}()
+	ms := make([]string, len(es))
+	regOf := map[string]int{}
+	for k, e := range es {
+		ms[k] = e.M
+		regOf[e.M] = i + k + 1
+	}
+	h := func(c flamego.Context) {
+		reg := regOf[c.Request().Method]
+		o := serveOut{reg: reg, params: map[string]string{}}
+		for k, v := range c.Params() {
+			o.params[k] = v
+		}
+		if name := x.nameFor(reg); name != "" {
+			pairs := []string{}
+			for k, v := range c.Params() {
+				pairs = append(pairs, k, v)
+			}
+			func() {
+				defer func() { _ = recover() }()
+				o.rbWithout = c.URLPath(name, pairs...)
+				o.rbWith = c.URLPath(name, append(pairs, "withOptional", "true")...)
+				o.rbOK = true
+			}()
+		}
+		x.last = o
+		c.ResponseWriter().WriteHeader(200)
+	}
+	r := x.f.Routes(es[0].R.text(), strings.Join(ms, ","), h)
+	for k := range es {
+		x.routes[i+k+1] = r
+	}
+	x.lastCall[es[0].Call] = r
+	if len(x.c.Names) == 0 && len(x.c.URLs) == 0 {
+		r.Name("r" + itoa(i+1))
+		for k := range es {
+			x.named[i+k+1] = "r" + itoa(i+1)
+		}
+	}
+	return true, ""
+}
 
 func (x *treeExec) serve(m, raw string, hdr map[string]string) (o serveOut) {
 	defer func() {
@@ -409,31 +462,24 @@ func (x *treeExec) serve(m, raw string, hdr map[string]string) (o serveOut) {
 		}
 		o.rbWith = leaf.URLPath(params, true)
 		o.rbWithout = leaf.URLPath(params, false)
+		o.rbOK = true
 		o.params["route"] = leaf.Route()
 		return
 	}
 	x.chains = 0
+	x.last = serveOut{}
 	w := httptest.NewRecorder()
 	req := &http.Request{Method: m, URL: &url.URL{Path: raw}, Header: h, Proto: "HTTP/1.1", ProtoMajor: 1, ProtoMinor: 1, Host: "x"}
 	x.f.ServeHTTP(w, req)
+	o = x.last
 	o.chains = x.chains
 	o.status = w.Code
-	var body struct {
-		Reg       int               `json:"reg"`
-		Params    map[string]string `json:"params"`
-		RbWith    string            `json:"rb_with"`
-		RbWithout string            `json:"rb_without"`
-	}
-	_ = json.Unmarshal(w.Body.Bytes(), &body)
-	o.reg = body.Reg
-	o.params = body.Params
 	if o.params == nil {
-		o.params = map[string]string{"route": ""}
+		o.params = map[string]string{}
 	}
 	if _, ok := o.params["route"]; !ok {
 		o.params["route"] = ""
 	}
-	o.rbWith, o.rbWithout = body.RbWith, body.RbWithout
 	return
 }
 
@@ -595,10 +641,49 @@ func treeReplay(raw json.RawMessage, idx int, tr *traceWriter) {
 func (x *treeExec) run(tr *traceWriter) {
 	c := x.c
 	x.curHdr = map[int][]hdrC{}
-	for i, e := range c.H {
+	for i := 0; i < len(c.H); {
+		e := c.H[i]
+		j := i + 1
+		for x.via == "flame" && j < len(c.H) && c.H[j].Call == e.Call {
+			j++
+		}
+		if j-i > 1 {
+			// one Flame-level call for several methods: Routes(path, "M1,M2", handler) returns ONE handle
+			acc, detail := x.registerMulti(i, c.H[i:j])
+			// Routes() registers method by method and panics at the first failure: the methods
+			// before it are registered, the ones after it were never attempted (skipped).
+			failAt := -1
+			if !acc {
+				failAt = i
+				if m := reFailMethod.FindStringSubmatch(detail); m != nil {
+					for k := i; k < j; k++ {
+						if c.H[k].M == m[1] {
+							failAt = k
+						}
+					}
+				} else {
+					failAt = -2 // failed before any method was tried (parse error): all rejected
+				}
+			}
+			for k := i; k < j; k++ {
+				a, skipped := acc, false
+				if failAt >= 0 {
+					a = k < failAt
+					skipped = k > failAt
+				} else if failAt == -2 {
+					a = false
+				}
+				x.accept = append(x.accept, a)
+				tr.emit(map[string]interface{}{"ev": "AddRoute", "m": c.H[k].M, "r": encRoute(c.H[k].R), "accepted": a, "skipped": skipped,
+					"call": e.Call, "detail": encBytes(detail)})
+			}
+			i = j
+			continue
+		}
 		acc, detail := x.register(i, e)
 		x.accept = append(x.accept, acc)
-		tr.emit(map[string]interface{}{"ev": "AddRoute", "m": e.M, "r": encRoute(e.R), "accepted": acc, "call": e.Call, "detail": encBytes(detail)})
+		tr.emit(map[string]interface{}{"ev": "AddRoute", "m": e.M, "r": encRoute(e.R), "accepted": acc, "skipped": false, "call": e.Call, "detail": encBytes(detail)})
+		i = j
 	}
 	for _, n := range c.Names {
 		if x.routes[n.Reg] == nil {
@@ -641,7 +726,7 @@ func (x *treeExec) run(tr *traceWriter) {
 		tr.emit(map[string]interface{}{"ev": "Serve", "m": m, "raw": encBytes(raw), "p": fx.p, "h": hh,
 			"dec": fx.dec, "decok": fx.decok, "adm": fx.adm, "splits": fx.splits, "hadm": fx.hadm,
 			"reg": o.reg, "params": encParams(o.params), "panicked": o.panicked, "chains": o.chains,
-			"rb_with": encBytes(o.rbWith), "rb_without": encBytes(o.rbWithout), "status": o.status})
+			"rb_with": encBytes(o.rbWith), "rb_without": encBytes(o.rbWithout), "rbok": o.rbOK, "status": o.status})
 		treeStats.Emitted++
 	}
 	// (1) the finite request universe of the model, pre-filtered by the P-outcome TLC computed
